@@ -5,6 +5,7 @@ import (
 	"encoding/base64"
 	"encoding/hex"
 	"fmt"
+	"strings"
 
 	"simlal/sim"
 	"simlal/sim/actors"
@@ -30,6 +31,7 @@ func ParseRtspSession(a *actors.RtspClient) *RtspContent {
 		have    bool
 		lastSeq uint16
 		ssrc    uint32
+		units   int
 	}
 	sts := make([]*st, len(a.Tracks))
 	for i := range a.Tracks {
@@ -75,9 +77,14 @@ func ParseRtspSession(a *actors.RtspClient) *RtspContent {
 		s.have, s.lastSeq, s.ssrc = true, p.Seq, p.Ssrc
 		us := s.d.Feed(p)
 		if s.d.Err != nil {
-			rc.Problems = append(rc.Problems, fmt.Sprintf("RTP packet #%d of track %d: %v", n, r.Track, s.d.Err))
+			// a player that is let in at an arbitrary packet (out_wait_key_frame_flag off) may start in the middle of a
+			// fragmented NAL unit: a depacketiser discards the fragments up to the next start
+			if !(s.units == 0 && strings.Contains(s.d.Err.Error(), "fragment without start")) {
+				rc.Problems = append(rc.Problems, fmt.Sprintf("RTP packet #%d of track %d: %v", n, r.Track, s.d.Err))
+			}
 			s.d.Err = nil
 		}
+		s.units += len(us)
 		if t.Audio {
 			rc.Audio = append(rc.Audio, us...)
 		} else {
@@ -130,9 +137,16 @@ func CompareRtspToPublished(rc *RtspContent, units []media.Unit, hevc bool, aacS
 		if rc.VTrack == nil || rc.VTrack.Clock != 90000 {
 			return "video RTP arrives but the SDP declares no 90 kHz video track", 0, 0
 		}
+		// alignment: small units need not be unique, so prefer a start whose timestamp agrees as well
 		start := -1
-		for i := range pv {
-			if bytes.Equal(pv[i], rc.Video[0].Data) {
+		for pass := 0; pass < 2 && start < 0; pass++ {
+			for i := range pv {
+				if !bytes.Equal(pv[i], rc.Video[0].Data) {
+					continue
+				}
+				if d := tickDiff(rc.Video[0].Ts, uint32(uint64(pvu[i].Ts)*90)); pass == 0 && (d < -1 || d > 1) {
+					continue
+				}
 				ok := true
 				for j := 1; j < 3 && j < len(rc.Video) && i+j < len(pv); j++ {
 					ok = ok && bytes.Equal(pv[i+j], rc.Video[j].Data)
@@ -184,8 +198,14 @@ func CompareRtspToPublished(rc *RtspContent, units []media.Unit, hevc bool, aacS
 		}
 		clock := rc.ATrack.Clock
 		start := -1
-		for i, u := range pa {
-			if bytes.Equal(u.Audio, rc.Audio[0].Data) {
+		for pass := 0; pass < 2 && start < 0; pass++ {
+			for i, u := range pa {
+				if !bytes.Equal(u.Audio, rc.Audio[0].Data) {
+					continue
+				}
+				if d := tickDiff(rc.Audio[0].Ts, uint32(uint64(u.Ts)*uint64(clock)/1000)); pass == 0 && (d < -1 || d > 1) {
+					continue
+				}
 				start = i
 				break
 			}
